@@ -80,6 +80,9 @@ fn parse_case(line: &str) -> Option<(usize, Vec<usize>, Vec<Op>)> {
         return None;
     }
     let cap = a[0].as_usize()?;
+    if cap == 0 {
+        return None; // the properties quantify over capacities >= 1
+    }
     let (t, sp) = a[1].as_tagged()?;
     if t != "sp" {
         return None;
